@@ -3,7 +3,7 @@
    Prints only indices (see `disagreeing3`).  No proofs in this file. *)
 From Coq Require Import ZArith List Bool String QArith Qabs.
 Require Import OV.Torch.Onnx OV.Torch.Onnx2 OV.Torch.Onnx3 OV.Torch.Spec OV.Torch.Spec2 OV.Torch.Spec3
-               OV.Torch.Aten OV.Torch.Aten2 OV.Torch.Aten3 OV.Torch.Check OV.Torch.Upsample.
+               OV.Torch.Aten OV.Torch.Aten2 OV.Torch.Aten3 OV.Torch.Check OV.Torch.Upsample OV.Torch.IndexModel OV.Torch.Misc4.
 Import ListNotations.
 Local Open Scope Z_scope.
 
@@ -24,7 +24,12 @@ Inductive call3 :=
 | CScatterReduce (uf : bool) (s : list Z) (dim : Z) (idx src : list Z) (include_self : bool)
 | CConvolution (of : bool) (s w : list Z) (has_bias : bool) (stride padding dilation : list Z) (transposed : bool) (output_padding : list Z) (groups : Z)
 | CConvNd (lf bf : bool) (e : Z) (s w : list Z) (has_bias : bool) (stride padding dilation : list Z) (groups : Z)
-| CUpsample (k : up_kind) (s size : list Z) (scales : list (option Q)).          (* s = [N; C; spatial...] *)
+| CUpsample (k : up_kind) (s size : list Z) (scales : list (option Q))          (* s = [N; C; spatial...] *)
+| CIndex (m : list bool) (s : list Z) (idx : list (list Z))
+| CIndexPut (m : list bool) (s : list Z) (idx : list (list Z)) (vrank : nat)
+| CBaddbmm (zf : bool) (beta alpha : Z) (self mm : list xval)                 (* flat elements; mm = batch1 @ batch2 as torch computes it *)
+| CEmbedding (rows : list (list Z)) (idx : list Z)
+| CLayerNormStats (s normalized : list Z).
 
 (* an observed float: exact value of the float32 / float64 number, or its class *)
 Inductive fobs := OFin (q : Q) | OInf (negative : bool) | ONaN.
@@ -44,6 +49,12 @@ Inductive pred3 :=
 | P3Vals (sqrt_ : bool) (s : list Z) (v : list fval).
 
 Definition b2i (b : bool) : Z := if b then 1 else 0.
+Fixpoint map2x (f : xval -> xval -> xval) (a b : list xval) : list xval :=
+  match a, b with x :: a', y :: b' => f x y :: map2x f a' b' | _, _ => [] end.
+(* aten_baddbmm skeleton: MatMul; [CastLike alpha; Mul]; [CastLike beta; Mul]; Add -- zf: beta == 0 returns before the Add *)
+Definition skel_baddbmm (zf : bool) (beta alpha : Z) : skel :=
+  ([("MatMul"%string, [])] ++ (if alpha =? 1 then [] else [("CastLike"%string, [[alpha]]); ("Mul"%string, [])])
+   ++ (if zf && (beta =? 0) then [] else ((if beta =? 1 then [] else [("CastLike"%string, [[beta]]); ("Mul"%string, [])]) ++ [("Add"%string, [])])))%list.
 Definition run_call3 (c : call3) : option pred3 :=
   match c with
   | CAllAnyDim gt any s dim kd fibers =>
@@ -76,6 +87,13 @@ Definition run_call3 (c : call3) : option pred3 :=
   | CScatterReduce uf s dim idx src inc => option_map P3Shape (aten_scatter_reduce_shape_v uf s dim idx src inc)
   | CConvolution of s w _ st pd dl tr op g =>
       obind (aten_convolution_attrs_v of (zlen w - 2) st pd dl tr op) (fun a => option_map P3Shape (conv_shape s w g tr a))
+  | CIndex m s idx => option_map P3Shape (aten_index_shape m idx s)
+  | CIndexPut m s idx _ =>
+      obind (bcast_all idx) (fun B => obind (aten_put_values_axes m B s) (fun _ => option_map P3Shape (aten_index_put_axes m s)))
+  | CBaddbmm zf beta alpha self mm =>
+      Some (P3ShapeData [] (map (fun v => match v with XFin z => z | XNaN => -999999 end) (map2x (fun a b => aten_baddbmm zf a b beta alpha) self mm)))
+  | CEmbedding rows idx => option_map (fun r => P3ShapeData [] (List.concat r)) (aten_embedding rows idx)
+  | CLayerNormStats s nm => option_map P3Shape (aten_layer_norm_stats s nm)
   | CUpsample k s size scales => Some (P3Shape (take 2 s ++ aten_upsample_extents k (drop 2 s) size scales)%list)
   | CConvNd lf bf e s w hb st pd dl g =>
       obind (aten_convnd_attrs_v lf bf e st pd dl hb) (fun a => option_map P3Shape (conv_shape s w g false a))
@@ -102,6 +120,11 @@ Definition skel_call3 (c : call3) : skel :=
       | None => let e := zlen w - 2 in
                 skel_conv_core s w g tr (conv_expand1 e st, (conv_expand1 e pd ++ conv_expand1 e pd)%list, conv_expand1 e dl, op)
       end
+  | CIndex m s idx => skel_index m (match bcast_all idx with Some B => List.length B | None => O end) (List.length s)
+  | CIndexPut m s idx vr => skel_index_put m (match bcast_all idx with Some B => List.length B | None => O end) (List.length s) vr
+  | CBaddbmm zf beta alpha _ _ => skel_baddbmm zf beta alpha
+  | CEmbedding _ _ => [("Gather"%string, [[0]])]
+  | CLayerNormStats _ nm => [("LayerNormalization"%string, [[- zlen nm]; [1]])]
   | CUpsample k _ size scales => skel_upsample k size scales
   | CConvNd lf bf e s w hb st pd dl g =>
       let x := fun l => if lf then conv_expand1 e l else l in
